@@ -49,7 +49,7 @@ def _remap_node(d, noff, dmap):
     return n
 
 
-def inlinable_calls(unit, fn, fd):
+def inlinable_calls(unit, fn, fd, force=None):
     """Calls that are spliced into fd: (block id, element index, call node id, target raw function, number of leading
     call arguments that are not parameters (1 for the closure object of a lambda call)).
 
@@ -69,7 +69,10 @@ def inlinable_calls(unit, fn, fd):
             cal = n.get("callee")
             if not cal or cal.get("kind") not in ("method", "func", "op"):
                 continue
-            if cal["uq"] in kn:
+            if force is not None:
+                if not force(cal):
+                    continue
+            elif cal["uq"] in kn:
                 continue
             tgt = unit.raw_by_did.get(cal["did"])
             if tgt is None or not tgt.get("blocks") or tgt["did"] == fd["did"] or not tgt.get("cfgok", True):
@@ -248,3 +251,25 @@ def inline_unit(unit_json):
         if f["uq"] not in kn and (f.get("access") in ("private", "protected") or f.get("lambda") or f.get("kind") == "func"):
             drop.add(did)
     return drop
+
+
+def inline_variant(unit, fn, select, rounds=24):
+    """A copy of `fn` (an ir.Fn of `unit`) with every call accepted by select(callee dict) spliced in, whether or not
+    the callee is a known anchor.  Used by rules that state a property of a function *together with* its private
+    helpers, so that the rule reads the same whether the helpers exist or have been folded into the caller."""
+    from .ir import Fn
+
+    class U:
+        pass
+    u = U()
+    u.raw_by_did = {f.d["did"]: f.d for f in unit.functions}
+    fd = copy.deepcopy(fn.d)
+    instance = 500
+    for _round in range(rounds):
+        calls = inlinable_calls(u, None, fd, force=select)
+        if not calls:
+            break
+        bid, idx, call_id, tgt, skip = calls[0]
+        instance += 1
+        inline_once(u, fd, bid, idx, call_id, copy.deepcopy(tgt), instance, skip)
+    return Fn(unit, fd)
